@@ -30,6 +30,8 @@ pub enum Cmd {
 	WaitClosed(usize, u64),
 	/// end the handler with this close value (all sinks are dropped first, in index order)
 	Return(Ret),
+	/// the handler panics while it still holds its pending sink / its sinks (they are dropped by the unwinding)
+	Panic,
 }
 
 #[derive(Debug, Clone)]
@@ -145,7 +147,12 @@ async fn drive(tag: String, pending: PendingSubscriptionSink, reg: Registry) -> 
 		let mut closed_before = None;
 		let mut closed_after = None;
 		let mut done = false;
+		let mut panic_now = false;
 		let reply = match cmd {
+			Cmd::Panic => {
+				panic_now = true;
+				Reply::Returning
+			}
 			Cmd::Accept => match pending.take() {
 				Some(p) => match p.accept().await {
 					Ok(s) => {
@@ -242,6 +249,9 @@ async fn drive(tag: String, pending: PendingSubscriptionSink, reg: Registry) -> 
 			}
 		};
 		let _ = reply_tx.send(Timed { reply, before, after: ticket(), closed_before, closed_after });
+		if panic_now {
+			panic!("{}: subscription handler panics while holding its sinks", crate::handlers::PANIC_MARK);
+		}
 		if done {
 			break;
 		}
